@@ -53,6 +53,7 @@ def structures(tier, seed):
     # [bounded] the real kernel + wrapper on concrete blocks of columns against numpy's interpolant (both directions, directions
     # mixed inside one block, levels inside / outside / exactly on the ends, both flags, log): still decides when the symbolic rule is
     # not applicable to a restructured kernel
+    out.append({"sid": "rnd:native-reference[bounded]", "part": "native-reference", "n": 96 if tier == "thorough" else 36, "seed": int(seed)})
     out.append({"sid": "rnd:native-dask[bounded]", "part": "native-dask", "methods": ['linear', 'log'], "n": 24 if tier == "thorough" else 8, "seed": int(seed)})
     out.append({"sid": "rnd:native-columns[bounded]", "part": "native-columns", "n": 300 if tier == "thorough" else 100, "seed": int(seed)})
     return out
@@ -385,7 +386,8 @@ def run_xarray(s):
 
 
 def run_structure(s):
-    return {"kernel": run_kernel, "wrapper": run_wrapper, "xarray": run_xarray, "native-columns": run_native_columns, "native-dask": (lambda s_: __import__("harness.native_transform", fromlist=["run"]).run(s_, 'transform.transform[linear/log; bounded, real dask]'))}[s["part"]](s)
+    return {"kernel": run_kernel, "wrapper": run_wrapper, "xarray": run_xarray, "native-columns": run_native_columns, "native-reference": (lambda s_: __import__("harness.native_transform", fromlist=["run_reference"]).run_reference(s_, "transform.transform[linear/log; bounded, real xarray]")),
+            "native-dask": (lambda s_: __import__("harness.native_transform", fromlist=["run"]).run(s_, 'transform.transform[linear/log; bounded, real dask]'))}[s["part"]](s)
 
 
 REQUIRED_COVERS = ["post", "returned"]
